@@ -37,7 +37,10 @@ def gen_case(rng, tier, k):
     st = rng.choice(["bfs", "dfs", "build", "bfs", "scc", "block"])
     if st in ("scc", "block") and rng.random() < 0.6:
         bnet = common.g_modulated(rng, extra=False) if tier == "quick" else common.g_modulated(rng)
-    return {"bnet": bnet, "perm_seed": rng.randrange(1 << 30), "flip": rng.randrange(64), "strategy": st,
+    flip = rng.randrange(64)
+    if bnet.startswith("i0, i0") and rng.random() < 0.5:
+        flip = 0        # encode the *input* by its negation (variable names sort i0 first)
+    return {"bnet": bnet, "perm_seed": rng.randrange(1 << 30), "flip": flip, "strategy": st,
             "weird": rng.random() < 0.3}
 
 
